@@ -35,7 +35,7 @@ theorem findField_eq (bibData : Option BibData) (visited : List Str) (e : Entry)
               match db.entries.getItem x with
               | none => none
               | some p => findField bibData (lower x :: visited) p name := by
-  rw [findField]
+  rw [findField.eq_def]
   unfold Entry.own
   cases e.fields.getItem name with
   | some v => rfl
